@@ -64,6 +64,11 @@ def base_terms(kind, n, pool, r):
             # every mention is a NEW Variable object with the same name (a helper `def var(i): return Variable(f"v{i}")`)
             from optyx import Variable as _V
             out.append(_V(v.name) ** 2 - 2 * _V(v.name))
+        elif kind == "expvar":
+            # a variable that occurs ONLY in exponents (2**(z - a) + 2**(a - z) style), another one only as a base
+            from optyx import Variable as _V
+            zz, aa = _V(f"z{i % 3}"), float(i % 4) * 0.25
+            out.append(gen.Constant(2.0) ** (zz - aa) + gen.Constant(2.0) ** (aa - zz))
         elif kind == "distinct":
             # every term has its own variable, written with the variable on the LEFT: the first one sits at the very bottom
             # of the left spine and is mentioned nowhere else
@@ -111,7 +116,7 @@ def run(rep: vk.Report):
             n = rng.choice(shallow_sizes)
             plan.append((kind, op, n, rng.choice(["left", "balanced"])))
     # term kinds that exercise each rule of the degree analysis and the call-time reading of parameters, right at the switch depth
-    for kind in ["param", "divc", "negpow", "fracpow", "pow01", "cdiv", "cexpr", "clones", "distinct"]:
+    for kind in ["param", "divc", "negpow", "fracpow", "pow01", "cdiv", "cexpr", "clones", "distinct", "expvar"]:
         for op, n in ([("+", 401), ("-", 400)] if quick else [("+", 399), ("+", 400), ("+", 401), ("-", 400), ("-", 900), ("*", 401)]):
             plan.append((kind, op, n, "left" if op != "+" or quick else rng.choice(["left", "balanced"])))
     for kind in (["lin", "vec", "fn:atan", "fn:log2"] if quick else ["lin", "var", "sq", "vec", "fn:sin", "fn:atan", "fn:log2"]):
